@@ -19,11 +19,14 @@ from ..util import (has_call, find_calls, assigned_value, const_str, unparse, kw
                     guards_of, call_tail, control_ancestors, name_bound, bound_names)
 from .. import mutate as M
 
+TECHNIQUE = 'static analysis: configuration-specialised CFG -- three-valued constant propagation over (learn, eval, record, has_score ...) prunes SequentialCB._results, then definite assignment / argument provenance per pruned CFG (process pool); recognition-order dataflow and memo-key rule reused from C15/C10'
+
 EXPLANATION = ("Configuration-specialised analysis of SequentialCB._results: for every configuration accepted by _validate "
                "the loop body is pruned by partial evaluation of its flag tests; on each distinct pruned CFG: definite "
                "assignment of every local read, nullness of every name that is called/len()'d/subscripted, provenance "
                "terms of learner.learn(...) arguments and of the recorded reward/action/probability, predict-before-"
                "learn domination and one yield per interaction; plus the wiring of evaluate().")
+EXPLANATION += ' R8: an answer that is one of the offered objects is read as that action before any look-alike heuristic; R9: the action-encoding memo of Repr is keyed by the whole row.'
 
 SEQ = "coba/evaluators/sequential.py"
 LEARN = ["on", "off", "ips", ""]
